@@ -57,6 +57,7 @@ type execExtra struct {
 	panicFrames     []*frame
 	tasks           []task
 	inTask          int
+	pools           map[string][]Value
 	mapOrderReverse bool
 }
 
